@@ -15,17 +15,70 @@ from harness.c07 import windows_valid
 ASSUMPTIONS = ['valid frames arrive whole (one or several per read) after the garbage has ended',
                'RTU: streams in which a window that starts inside the garbage passes the CRC (a false frame, probability about '
                '2^-16 per window) are counted and excluded; the client-side RTU length oracle is a recorded known finding']
-RULE = ('garbage kinds {random bytes, corrupted frame, truncated frame, foreign-unit frame, delimiter soup, partial frame} x '
+RULE = ('garbage kinds {random bytes, corrupted frame, truncated frame, foreign-unit frame, delimiter soup, partial frame, head announcing a frame at/beyond the maximum size} x '
         '{rtu, ascii, binary} x {server, client} x valid frames 1..50 delivered one per read or k per read; non-trivial = the '
         'garbage is non-empty; distinct by (framer, garbage, frames)')
 
 BACKLOG_BOUND = {'rtu': 268 + 600, 'ascii': 2 * 520, 'binary': 2 * 270}
 
 
-def classify(name, rdir, what):
+def diagnose(name, rdir, uid, chunks):
+    """replay on a fresh real receiver: the largest frame length it predicted (`_header['len']`), and the function codes at
+    the head of its buffer while it sat on more than 512 unconsumed bytes"""
+    f = framelib.mk_framer(name, rdir)
+    worst, heads = 0, set()
+    for c in chunks:
+        try:
+            f.processIncomingPacket(bytes(c), lambda m: None, [uid], single=False)
+        except Exception:  # noqa
+            pass
+        worst = max(worst, (getattr(f, '_header', None) or {}).get('len', 0) or 0)
+        if len(f._buffer) > 512:
+            heads.add(f._buffer[1])
+    return worst, heads
+
+
+def classify(name, rdir, what, uid=None, chunks=None):
+    """known finding rtu-client-oracle-unbounded: only when the client-side length oracle really asked for more than two
+    maximum-size frames: it announced more than 512 bytes, or it sat on more than 512 bytes behind a FIFO (0x18) /
+    device-information (0x2B) head whose length it had not worked out yet.  Anything else that leaves the RTU client receiver
+    deaf is a violation."""
     if name == 'rtu' and rdir == 'client':
-        return 'rtu-client-oracle-unbounded'
+        if chunks is None:
+            return 'rtu-client-oracle-unbounded'
+        worst, heads = diagnose(name, rdir, uid, chunks)
+        if worst > 512 or heads & {0x18, 0x2B}:
+            return 'rtu-client-oracle-unbounded'
     return None
+
+
+def flush_took_the_read(g, frames, chunks, calls, base):
+    """known finding rtu-flush-discards-read: the receiver DID take its decision within the bound (fewer than 512 bytes of valid
+    traffic had arrived before the read in question), but resetFrame() then dropped everything buffered — including frames
+    of the same read that start beyond the bound.  True iff exactly that happened: the first read that ends with an empty buffer
+    started within the bound, and every read after it is delivered completely."""
+    gc, acc = 0, 0
+    while acc < len(g) and gc < len(chunks):
+        acc += len(chunks[gc])
+        gc += 1
+    if acc != len(g):
+        return False
+    i, valid_before, bad = 0, 0, []
+    for j in range(gc, len(chunks)):
+        n, l = 0, 0
+        while l < len(chunks[j]) and i + n < len(frames):
+            l += len(frames[i + n])
+            n += 1
+        if l != len(chunks[j]):
+            return False
+        got = [e for e in calls[j]['events'] if 'msg' in e]
+        if got != base[i:i + n]:
+            bad.append((j, valid_before))
+        i += n
+        valid_before += l
+    # the read j0 at whose end the receiver flushed: the first one after the garbage that leaves the buffer empty
+    j0 = next((j for j in range(gc, len(chunks)) if calls[j]['buffered'] == 0), None)
+    return bool(bad) and j0 is not None and bad[-1][0] == j0 and bad[-1][1] < 512
 
 
 def gen_valid(rng, name, direction, uid, n):
@@ -44,7 +97,7 @@ def gen_valid(rng, name, direction, uid, n):
 
 
 def gen_garbage(rng, name, direction, uid):
-    kind = rng.choice(['random', 'corrupt', 'truncate', 'foreign', 'delims', 'partial', 'nonhex', 'mixed'])
+    kind = rng.choice(['random', 'corrupt', 'truncate', 'foreign', 'delims', 'partial', 'nonhex', 'mixed', 'bighead'])
     good = gen_valid(rng, name, direction, uid, 1)
     g = []
     if kind == 'random' or not good:
@@ -59,6 +112,16 @@ def gen_garbage(rng, name, direction, uid):
     elif kind == 'foreign':
         other = framelib.real_build(name, direction, {'t': 'writeRegister', 'address': 1, 'value': 2}, (uid + 5) % 247 + 1, 1, 0)
         g = other if not isinstance(other, dict) else []
+    elif kind == 'bighead':
+        # the head of a frame whose byte-count field announces a frame at or beyond the 256-byte maximum
+        big = rng.choice([0xF0, 0xF6, 0xF7, 0xF8, 0xFA, 0xFB, 0xFC, 0xFE, 0xFF])
+        if direction == 'req':
+            g = rng.choice([[uid, rng.choice([15, 16]), 0, rng.randrange(200), 0, rng.randrange(1, 120), big],
+                            [uid, 23, 0, 1, 0, 2, 0, 3, 0, rng.randrange(1, 120), big],
+                            [uid, rng.choice([20, 21]), big, 6, 0, 1]])
+        else:
+            g = [uid, rng.choice([1, 2, 3, 4, 20, 21, 23]), big]
+        g = g + [rng.randrange(256) for _ in range(rng.choice([0, 0, 1, 4]))]
     elif kind == 'delims':
         g = [rng.choice([58, 13, 10, 0x7B, 0x7D, 48, 70]) for _ in range(rng.randrange(1, 30))]
     elif kind == 'partial':
@@ -120,15 +183,18 @@ def check_cases(ctx, rep, cases):
                 if has_false_frame(stream[:len(g) + sum(len(f) for f in frames[:need_from])], len(g)):
                     rep.hist['excluded:false-frame'] += 1
                     continue
+            fid = classify(name, rdir, 'deaf', uid, chunks)
+            if fid is None and name == 'rtu' and flush_took_the_read(g, frames, chunks, calls, base):
+                fid = 'rtu-flush-discards-read'
             rep.violation('valid frames sent after the garbage (and after two maximum-size frames of valid traffic) were not all delivered',
-                          case, finding=classify(name, rdir, 'deaf'), required=len(required), got=len(delivered),
+                          case, finding=fid, required=len(required), got=len(delivered),
                           backlog=[c['buffered'] for c in calls][-5:])
             continue
         bound = BACKLOG_BOUND[name] + max(len(c) for c in chunks)
         worst = max(c['buffered'] for c in calls)
         if worst > bound:
             rep.violation('the backlog of unconsumed bytes grew beyond the bound while valid frames kept arriving', case,
-                          finding=classify(name, rdir, 'backlog'), worst=worst, bound=bound)
+                          finding=classify(name, rdir, 'backlog', uid, chunks), worst=worst, bound=bound)
 
 
 def run(ctx):
@@ -142,7 +208,12 @@ def run(ctx):
             rep.compare(c, calls, a['calls'], 'corpus')
             if c.get('kind') == 'resync' and (framelib.raised(calls) or not framelib.deliveries(calls[-1:])):
                 rep.violation('corpus history: the last valid frame was not delivered', c,
-                              finding=classify(c['framer'], c['dir'], 'deaf'), calls=calls[-2:])
+                              finding=classify(c['framer'], c['dir'], 'deaf', c['uid'], c['chunks']), calls=calls[-2:])
+    # recorded histories that come with their frame list go through the full check (bound and backlog)
+    full = [(c['framer'], c['dir'], c['uid'], 'corpus', [b for ch in c['chunks'][:len(c['chunks']) - len(c['frames_per_chunk'])] for b in ch],
+             [c['frame']] * sum(c['frames_per_chunk']), c['chunks']) for c in ctx.corpus() if c.get('kind') == 'resync' and 'frames_per_chunk' in c]
+    if full:
+        check_cases(ctx, rep, full)
     rounds = ctx.scale(150, 3000)
     for _ in range(rounds):
         if ctx.time_left() < 15:
@@ -154,7 +225,7 @@ def run(ctx):
                 for _ in range(4):
                     uid = rng.choice([1, 2, 0x11])
                     kind, g = gen_garbage(rng, name, direction, uid)
-                    frames = gen_valid(rng, name, direction, uid, rng.choice([2, 3, 8, 20, 50]))
+                    frames = gen_valid(rng, name, direction, uid, rng.choice([2, 3, 8, 20, 50] if kind != 'bighead' else [20, 50, 80]))
                     if len(frames) < 2:
                         continue
                     k = rng.choice([1, 1, 2, 3])
